@@ -266,6 +266,11 @@ func exhDiscipline(c *Ctx) {
 		if _, analysed := region[host]; !analysed {
 			continue
 		}
+		if len(byKey[key]) == 0 {
+			// the function no longer switches over this type (e.g. the switch became an if-chain): there is no
+			// partial switch left to keep its cases — exhaustiveness is a property of switches
+			continue
+		}
 		for i, want := range exhPartial[key] {
 			ok := false
 			for _, s := range byKey[key] {
